@@ -13,13 +13,16 @@ for pid in ids:
         continue
     s = PROPS[pid]
     engines.setdefault(s["engine"], []).append(pid)
+    for extra in s.get("also", []):
+        if pid not in engines.setdefault(extra["engine"], []):
+            engines[extra["engine"]].append(pid)
     checks.append({
         "property_id": pid,
         "quick_cmd": "./check %s --tier quick" % pid,
         "thorough_cmd": "./check %s --tier thorough" % pid,
         "evidence_file": "evidence/%s.json" % pid,
         "replay_cmd_template": "./check %s --replay {path}" % pid,
-        "engine": s["engine"],
+        "engine": s["engine"] + "".join(" + " + e["engine"] for e in s.get("also", [])),
         "level_claimed": {"category": s["level"], "text": s["text"], "design_ref": "DESIGN.md section 4, " + s.get("design", pid)},
         "level_note": s["note"],
         "technique": s["technique"],
